@@ -89,6 +89,11 @@ Proof.
   split; [exact (union_keys_nodup pfx L R _ _ _ _ U) | exact (union_keys_iff pfx L R _ _ _ _ U)].
 Qed.
 
+(** each key once (named separately: it is [C05_union_keys]'s second clause) *)
+Theorem C05_union_once ba bb (ta : tree pfx L) (tb : tree pfx R) out :
+  wfL ba ta -> wfR bb tb -> t_union w fl L R ta tb = Some out -> NoDup (map ikey out).
+Proof. intros Ha Hb E. exact (proj1 (proj2 (C05_union_keys ba bb ta tb out Ha Hb E))). Qed.
+
 (** The tag: an item carries a left value exactly when its key is stored in [ta], and a right
     value exactly when its key is stored in [tb].  Hence it is [Both] iff the key is stored in
     both operands, [Left] iff in [ta] only, [Right] iff in [tb] only. *)
@@ -186,6 +191,24 @@ Proof.
   exact (union_correct pfx L R _ _ _ _ _ _ _ _ _ (laws w fl Hw) ba bb _ _ Wa Wb).
 Qed.
 
+(** Reachable states.  For any two histories of public mutating calls (over [L] resp. [R]; running
+    the same history twice gives two views of one map) and any two valid [view_at] positions, the
+    resulting views are well-formed operands — every reachable state is well-formed (C15,
+    [Common.reachable_wfm]) and [view_at] yields well-formed views ([SetOpsExtra.view_at_wf]).
+    Views derived from them by [find] / [left] / [right] / [split] are well-formed again
+    ([ViewsThm.v_find_spec], [v_side_spec]; C11), so the [view_wf] premise above is always met. *)
+Theorem C05_reachable (opsA : list (hop L)) (opsB : list (hop R)) qa qb va vb :
+  Forall (hop_ok w L) opsA -> Forall (hop_ok w R) opsB -> okp w qa -> okp w qb ->
+  t_view_at w fl L (root (hrun w fl L opsA)) qa = Some va ->
+  t_view_at w fl R (root (hrun w fl R opsB)) qb = Some vb ->
+  exists out, t_union w fl L R (v_tree va) (v_tree vb) = Some out /\
+              union_spec pfx L R (kbits w) (v_entries pfx L va) (v_entries pfx R vb) out.
+Proof.
+  intros HA HB Hqa Hqb Ea Eb. apply C05_union_views.
+  - exact (view_at_wf pfx _ _ _ _ _ _ _ _ _ (laws w fl Hw) _ qa va (reachable_wfm w fl L Hw opsA HA) Hqa Ea).
+  - exact (view_at_wf pfx _ _ _ _ _ _ _ _ _ (laws w fl Hw) _ qb vb (reachable_wfm w fl R Hw opsB HB) Hqb Eb).
+Qed.
+
 End C05.
 
 (** Non-vacuity (w = 8).  Map A = {00/2 ↦ 1, 01/2 ↦ 2, 1/1 ↦ 3, 110/3 ↦ 4} over [nat] (its node
@@ -236,6 +259,7 @@ Qed.
 Print Assumptions C05_union_terminates.
 Print Assumptions C05_union.
 Print Assumptions C05_union_keys.
+Print Assumptions C05_union_once.
 Print Assumptions C05_union_presence.
 Print Assumptions C05_union_left_entry.
 Print Assumptions C05_union_right_entry.
@@ -244,3 +268,4 @@ Print Assumptions C05_union_mut.
 Print Assumptions C05_union_mut_keys.
 Print Assumptions C05_union_mut_slots.
 Print Assumptions C05_union_views.
+Print Assumptions C05_reachable.
